@@ -4,12 +4,10 @@ from __future__ import annotations
 import ast
 from typing import Dict, List, Optional, Set
 
-from ..calls import callgraph
 from ..cfg import cfg_of
 from ..facts import emission_sites, value_set
 from ..model import AnalysisError, Fn, ancestors, parent, text, walk_fn
 from .c05 import _cfg_node_of_expr
-from .c07 import _value_when_debug_zero
 
 DEBUG = {"attr": "debug"}          # name of the Context attribute that holds the -d level (found by discover_flags)
 
